@@ -535,3 +535,65 @@ def serialisation_tolerance(ctx) -> None:
     okov = r[0] == "bin" and r[1] == "Pow" and is_const(r[3], 2) and "abs(" in show(r[2]) and "inner(" in show(r[2])
     ctx.ob("APICOMPAT-norm", "MPS.overlap is |<a|b>|²", ov.loc(), okov,
            "overlap(a, b) = |inner(a, b)|² (so overlap(ψ, ψ) = norm⁴)" if okov else f"MPS.overlap returns {show(r)[:80]}")
+
+
+def base_instance_state(ctx) -> None:
+    """Instance attributes that a Pulser base class creates in its own __init__ exist on an object of a repository
+    subclass only if that subclass's constructor chain calls the Pulser __init__.  Where it does not (the operator
+    classes build `self.data` and nothing else), no method of the subclass may read those attributes from `self`: an
+    object built directly or by arithmetic does not have them."""
+    prog = ctx.prog
+    P = util.pulser_program()
+    n = 0
+    for C in prog.classes.values():
+        if not C.module.name.startswith(("emu_base", "emu_mps", "emu_sv")):
+            continue
+        ext = [P.classes.get(P.canon(b)) or P.classes.get(b) for b in prog.external_bases(C)]
+        ext = [e for e in ext if e is not None]
+        if not ext:
+            continue
+        owned = {}   # attribute -> pulser class that creates it in __init__
+        for e in ext:
+            for pc in P.mro(e):
+                init = pc.methods.get("__init__")
+                if init is None:
+                    continue
+                for node in ast.walk(init.node):
+                    if isinstance(node, (ast.Assign, ast.AnnAssign)):
+                        for t in (node.targets if isinstance(node, ast.Assign) else [node.target]):
+                            if isinstance(t, ast.Attribute) and isinstance(t.value, ast.Name) and t.value.id == init.params[0]:
+                                owned.setdefault(t.attr, pc.name)
+        if not owned:
+            continue
+        # does the repository constructor chain reach the Pulser __init__ ?
+        reaches = False
+        chain = [c for c in prog.mro(C) if "__init__" in c.methods]
+        if not chain:
+            reaches = True   # no own constructor: Pulser's runs
+        else:
+            reaches = all(any(isinstance(x, ast.Call) and isinstance(x.func, ast.Attribute) and x.func.attr == "__init__" and
+                              isinstance(x.func.value, ast.Call) and util.text(x.func.value.func) == "super"
+                              for x in ast.walk(c.methods["__init__"].node)) for c in chain)
+        own_defs = {t.attr for c in prog.mro(C) for m in c.methods.values() if m.name == "__init__"
+                    for node in ast.walk(m.node) if isinstance(node, (ast.Assign, ast.AnnAssign))
+                    for t in (node.targets if isinstance(node, ast.Assign) else [node.target])
+                    if isinstance(t, ast.Attribute) and isinstance(t.value, ast.Name) and t.value.id == m.params[0]}
+        n += 1
+        bad = []
+        if not reaches:
+            for m in C.methods.values():
+                if m.is_static or m.is_classmethod or not m.params:
+                    continue
+                selfname = m.params[0]
+                for node in ast.walk(m.node):
+                    if isinstance(node, ast.Attribute) and isinstance(node.ctx, ast.Load) and isinstance(node.value, ast.Name) \
+                            and node.value.id == selfname and node.attr in owned and node.attr not in own_defs:
+                        bad.append(f"{C.name}.{m.name} reads self.{node.attr} (line {node.lineno}), created only by "
+                                   f"{owned[node.attr]}.__init__")
+        ctx.ob("APICOMPAT-basestate", f"{C.qualname}", C.module.relpath + f":{C.node.lineno}", not bad,
+               (f"{C.name}'s constructor runs the Pulser __init__" if reaches else
+                f"{C.name} never runs {', '.join(sorted(set(owned.values())))}.__init__ and reads none of the attributes it creates "
+                f"({', '.join(sorted(owned))})") if not bad else
+               f"{bad[0]}, which {C.name}.__init__ never calls: an operator built directly or by arithmetic has no such "
+               f"attribute (AttributeError, e.g. when Pulser deep-copies the observables of a config)")
+    ctx.require(n >= 3, f"APICOMPAT-basestate: only {n} repository classes with Pulser-created instance state")
